@@ -43,8 +43,8 @@ CLAIMED = {
    text="Every unique concrete state of AAFramework<String> reached by the store exploration over three universes of valid Aspartix identifiers is written by AspartixWriter and read back (same labels, order, attack set; output in the strict grammar); every ordered selection of <=3 arguments through both ResponseWriters is byte-compared with the answer grammar and parsed back; statuses byte-exact.",
    note="strict Aspartix grammar of the C13 classifier defines well-formed output", ref="4 C14"),
  "C15": dict(engine="E2", technique="bounded exhaustive exploration of solver-object histories against a truth table",
-   text="Every history of exactly 5 (thorough 6) operations ending in a solve call over a 25-operation alphabet on CadicalSolver, and of 3 (thorough 4) on ExternalSatSolver driving the stand-in program: at every solve step verdict and model are checked against a truth table over 7 variables (clauses so far, assumptions of this call only, model queryable for every declared variable, never Unknown); both backends against the same table.",
-   note="variables <= 7, <= 3 solve calls per history; external backend = harness stand-in with its own DPLL", ref="4 C15"),
+   text="Every history of exactly 5 (thorough 6) operations ending in a solve call over a 25-operation alphabet on CadicalSolver, and of 3 (thorough 4) on ExternalSatSolver driving the stand-in program: at every solve step verdict and model are checked against a truth table over 7 variables (clauses so far, assumptions of this call only, model queryable for every declared variable, never Unknown); both backends against the same table; plus a finite family of scripted long sessions (up to 400 variables, hundreds of clauses, 30 solve calls on one object) on CaDiCaL and two configurations of the stand-in program, verdicts from the harness DPLL, every model verified.",
+   note="variables <= 7, <= 3 solve calls per history in the exhaustive part; external backend = harness stand-in with its own DPLL", ref="4 C15"),
  "C16": dict(engine="E3 + E4 (spin) + conformance", technique="spin exploration of a Promela model of the pipe exchange bound to the code by a conformance grid; exhaustive reply/instance enumeration",
    text="(1) every DIMACS instance written by static and dynamic solvers on the small universe is parsed strictly by the stand-in program; (2) every reply of <=3 (thorough 4) lines over a 17-line alphabet is interpreted and compared with a strict output-format parser; (3) models/extsat.pml: all interleavings of parent, writer thread and child over two bounded pipes for every scenario (6 child behaviours x instance x reply sizes), explored by spin for both parent orders; the 72-scenario grid is replayed on the real ExternalSatSolver under a watchdog (reply sizes around the real pipe capacity) and compared with the model of the required order; parent syscall order validated with strace.",
    note="the OS scheduler is not controlled on the real code; interleaving coverage is on the model, binding is by outcome table + syscall order", ref="2.4, 4 C16"),
